@@ -72,6 +72,9 @@ func (bs *blockState) call(x *ssa.Call) {
 			bs.atomicCall(x, f)
 			return
 		}
+		if bs.monCall(f, c.Args, x) {
+			return
+		}
 		var args []Val
 		for _, a := range c.Args {
 			args = append(args, bs.val(a))
@@ -121,6 +124,11 @@ func (bs *blockState) builtin(x *ssa.Call, f *ssa.Builtin) {
 		bs.mapDelete(x)
 	case "recover":
 		bs.recoverBuiltin(x)
+	case "close":
+		// closing a channel: contract "builtin.close" if one is declared (e.g. no sender may remain)
+		if spec := e.W.Specs.Funcs["builtin.close"]; spec != nil {
+			bs.applyContract(spec, "builtin.close", []Val{bs.val(args[0])}, x, nil)
+		}
 	default:
 		unsupp("builtin %s", f.Name())
 	}
@@ -195,6 +203,14 @@ func (bs *blockState) applyContractX(spec *FuncSpec, key string, args []Val, ins
 			}
 		}
 	}
+	// ghost statements anchored before the call run first: they may establish the precondition
+	{
+		gv := map[string]Val{}
+		for k, v := range vars {
+			gv[k] = v
+		}
+		bs.ghostAt("call "+short+fmt.Sprintf("#%d", e.callOrd[short])+" before", ins, gv)
+	}
 	preVars := map[string]Val{}
 	for k, v := range vars {
 		preVars[k] = v
@@ -206,8 +222,10 @@ func (bs *blockState) applyContractX(spec *FuncSpec, key string, args []Val, ins
 		bs.assertG(site+".pre."+clauseName(r, i), "pre", pre.boolT(r.Expr), r.Src, ins)
 	}
 	preSt := pre.St
+	if spec.Holds != "" {
+		bs.monSegment(site+".before", ins)
+	}
 	e.items = append(e.items, Item{Kind: IAssert, Guard: bs.g, Term: "false", Name: fmt.Sprintf("%s#canary.before.%s", e.key, site), Canary: true, Class: "canary-before", Pos: bs.posOf(ins), Blk: bs.b})
-	bs.ghostAt("call "+short+fmt.Sprintf("#%d", e.callOrd[short])+" before", ins, preVars)
 	// havoc what the callee may modify
 	bs.havocModifies(spec, vars, ins)
 	var res Val
@@ -252,6 +270,9 @@ func (bs *blockState) applyContractX(spec *FuncSpec, key string, args []Val, ins
 	}
 	for _, en := range spec.Ensures {
 		bs.assumeG(post.boolT(en.Expr))
+	}
+	if spec.Holds != "" {
+		bs.monNewSegment()
 	}
 	// reachability canary: the callee's postcondition must not contradict what is known here
 	e.items = append(e.items, Item{Kind: IAssert, Guard: bs.g, Term: "false", Name: fmt.Sprintf("%s#canary.after.%s", e.key, site), Canary: true, Class: "canary", Pos: bs.posOf(ins), Blk: bs.b})
@@ -420,33 +441,42 @@ func (e *Enc) resolveModifies(m string) [][2]string {
 func (bs *blockState) copyBuiltin(x *ssa.Call) {
 	e := bs.e
 	dst := bs.val(x.Call.Args[0])
-	srcT := x.Call.Args[1].Type()
-	src := bs.val(x.Call.Args[1])
-	var sa, so, sn string
-	if isString(srcT) {
-		sa, so, sn = src.C[0], src.C[1], src.C[2]
-	} else if isByteSlice(srcT) {
-		s := e.bytesOf(bs.st, src)
-		sa, so, sn = s.C[0], s.C[1], s.C[2]
-	} else {
-		unsupp("copy of %s", srcT)
-	}
-	if !isByteSlice(x.Call.Args[0].Type()) {
+	dstT, ok := x.Call.Args[0].Type().Underlying().(*types.Slice)
+	if !ok {
 		unsupp("copy into %s", x.Call.Args[0].Type())
 	}
+	elemT := dstT.Elem()
+	srcT := x.Call.Args[1].Type()
+	src := bs.val(x.Call.Args[1])
 	n := e.fresh(x.Name()+".n", SInt)
+	// source as (array term per component, offset, length)
+	var srcArr []string
+	var so, sn string
+	if isString(srcT) {
+		srcArr, so, sn = []string{src.C[0]}, src.C[1], src.C[2]
+	} else {
+		so, sn = src.C[1], src.C[2]
+		for j, s := range flatten(elemT) {
+			h := e.heapKey(bs.st, elemKey(elemT, j), "(Array Int (Array Int "+s+"))")
+			srcArr = append(srcArr, app("select", h, src.C[0]))
+		}
+	}
 	e.def(eq(n, ite(app("<", dst.C[2], sn), dst.C[2], sn)))
-	k := elemKey(tByte, 0)
-	h := e.heapKey(bs.st, k, "(Array Int (Array Int Int))")
-	old := app("select", h, dst.C[0])
-	na := e.fresh("copied", SArr)
-	q := e.freshName("k")
-	// absolute indices of the destination backing array (memory note: absolute indexing, new->old)
-	e.def(fmt.Sprintf("(forall ((%s Int)) (! (= (select %s %s) (ite (and (<= %s %s) (< %s (+ %s %s))) (select %s (+ %s (- %s %s))) (select %s %s))) :pattern ((select %s %s))))",
-		q, na, q, dst.C[1], q, q, dst.C[1], n, sa, so, q, dst.C[1], old, q, na, q))
-	nh := e.fresh("M.bytes", "(Array Int (Array Int Int))")
-	e.def(eq(nh, app("store", h, dst.C[0], na)))
-	bs.st.m[k] = nh
+	for j, s := range flatten(elemT) {
+		k := elemKey(elemT, j)
+		so2 := "(Array Int (Array Int " + s + "))"
+		h := e.heapKey(bs.st, k, so2)
+		old := app("select", h, dst.C[0])
+		na := e.fresh("copied", "(Array Int "+s+")")
+		q := e.freshName("k")
+		// absolute indices of the destination backing array, directed new -> old; the source is read
+		// from the memory before the copy (Go's copy handles overlap like memmove)
+		e.def(fmt.Sprintf("(forall ((%s Int)) (! (= (select %s %s) (ite (and (<= %s %s) (< %s (+ %s %s))) (select %s (+ %s (- %s %s))) (select %s %s))) :pattern ((select %s %s))))",
+			q, na, q, dst.C[1], q, q, dst.C[1], n, srcArr[j], so, q, dst.C[1], old, q, na, q))
+		nh := e.fresh("M.copy", so2)
+		e.def(eq(nh, app("store", h, dst.C[0], na)))
+		bs.st.m[k] = nh
+	}
 	e.regs[x] = Val{x.Type(), []string{n}}
 }
 
@@ -518,6 +548,11 @@ func (bs *blockState) fieldAddr(x *ssa.FieldAddr) {
 		}
 	}
 	obj := bs.val(x.X).C[0]
+	if _, isArr := st.Field(x.Field).Type().Underlying().(*types.Array); isArr {
+		// an array inside an object is its own element memory, addressed by an interior reference
+		e.addrs[x] = lvalue{kind: "ptr", obj: subRef(obj, x.Field), typ: st.Field(x.Field).Type()}
+		return
+	}
 	if _, nested := st.Field(x.Field).Type().Underlying().(*types.Struct); nested {
 		e.addrs[x] = lvalue{kind: "ptr", obj: subRef(obj, x.Field), typ: st.Field(x.Field).Type()}
 		return
